@@ -452,6 +452,10 @@ def run_resolver(prop, tier, seed, keep=False):
             w.run_drive(["run", "-in", "amp.json", "-reps", str(reps * 20), "-seed", str(seed + 1), "-out", "amp.ndjson"])
             ev.cov["conformance"]["amplified_executions"] = len(amp) * reps * 20
             rc = trace_validate(w, prop, spec["inv"], "amp.ndjson", ev, label="amplified")
+        if prop == "C08" and rc == 0:
+            # the filters Redefine decides with: FilterType / FilterAnd / FilterOr against Filter.tla (every expression of the bounded space)
+            rc, fdescs, _ = oracle_stage(w, prop, "filter", tier, seed, ev, enum_inv=["Laws"])
+            ev.cov["filter_expressions"] = len(fdescs)
         if spec.get("life") and rc == 0:
             # the same invariants over histories of calls on shared objects (memoized converters, reused functions)
             rc = life_stage(w, prop, spec["inv"], tier, seed, ev)
@@ -686,48 +690,56 @@ def run_c20(tier, seed, keep=False):
 
 # --------------------------------------------------------------------------- specification as oracle (C14, C15, C17)
 
-ORACLES = {"C14": ("Introspect.tla", "c14", "C14"), "C15": ("ValueSet.tla", "c15", "C15"), "C17": ("ResultAcc.tla", "c17", "C17")}
+ORACLES = {"C14": ("Introspect.tla", "c14", "C14"), "C15": ("ValueSet.tla", "c15", "C15"), "C17": ("ResultAcc.tla", "c17", "C17"),
+           "filter": ("Filter.tla", "filter", "FilterOK")}
 
 
-def run_oracle(prop, tier, seed, keep=False):
+def oracle_stage(w, prop, key, tier, seed, ev, enum_inv=()):
     """TLC enumerates the whole descriptor space of the module, the harness builds every descriptor with
     reflection and records what the library reports, TLC compares each observation with Expected(desc)."""
     import re
-    module, kind, inv = ORACLES[prop]
+    module, kind, inv = ORACLES[key]
+    write_cfg(w, "E_%s.cfg" % key, "EnumSpec", ["Emit"] + list(enum_inv), constants={"TraceFile": '"none"'}, post=None, alias=None)
+    res = w.tlc(module, "E_%s.cfg" % key, workers=4, timeout=900)
+    ev.add_tlc("descriptor-enumeration-" + key, res, "model_checking")
+    descs = []
+    for ln in res["out"].splitlines():
+        m = re.match(r'<<"DESC", "(.*)">>$', ln.strip())
+        if m:
+            descs.append(json.loads(json.loads('"' + m.group(1) + '"')))
+    if not res["ok"] or not descs:
+        raise Infra("descriptor enumeration failed:\n" + res["out"][-2500:])
+    vlib.write_json(w.path("descs_%s.json" % key), descs)
+    obsf = "obs_%s.ndjson" % key
+    r = w.run_drive(["intro", "-kind", kind, "-in", "descs_%s.json" % key, "-out", obsf, "-reps", "2" if tier == "quick" else "5"])
+    log(r.stderr.strip())
+    cfg = write_cfg(w, "T_%s.cfg" % key, "TraceSpec", [inv], constants={"TraceFile": '"%s"' % obsf})
+    tres = w.tlc(module, cfg, workers=1, timeout=1800)
+    ev.add_tlc("observations-vs-expected-" + key, tres, "trace_validation")
+    lines = open(w.path(obsf)).read().splitlines()
+    rc = 0
+    if tres["violated"]:
+        line, _ = vlib.last_alias_state(tres["out"])
+        obs = json.loads(lines[max(0, (line or 2) - 2)])
+        os.makedirs(vlib.REPLAYS, exist_ok=True)
+        rp = os.path.join(vlib.REPLAYS, "%s-%s.json" % (prop, vlib.sha(json.dumps(obs.get("desc"), sort_keys=True))))
+        vlib.write_json(rp, {"property": prop, "invariant": inv, "spec": module, "observation": obs, "seed": seed})
+        ev.doc["violations"] += 1
+        print("VIOLATION property=%s replay=%s" % (prop, rp), flush=True)
+        rc = 1
+    elif not tres["ok"] or tres["post_false"]:
+        raise Infra("oracle run did not complete:\n" + tres["out"][-2500:])
+    ev.cov["traces_validated_against_impl"] += len(lines)
+    ev.cov["evaluations"] += len(lines)
+    return rc, descs, lines
+
+
+def run_oracle(prop, tier, seed, keep=False):
+    module = ORACLES[prop][0]
     ev = Evidence(prop, tier, seed)
     with Work(keep) as w:
         w.build()
-        write_cfg(w, "E.cfg", "EnumSpec", ["Emit"], constants={"TraceFile": '"none"'}, post=None, alias=None)
-        res = w.tlc(module, "E.cfg", workers=4, timeout=900)
-        ev.add_tlc("descriptor-enumeration", res, "model_checking")
-        descs = []
-        for ln in res["out"].splitlines():
-            m = re.match(r'<<"DESC", "(.*)">>$', ln.strip())
-            if m:
-                descs.append(json.loads(json.loads('"' + m.group(1) + '"')))
-        if not res["ok"] or not descs:
-            raise Infra("descriptor enumeration failed:\n" + res["out"][-2500:])
-        vlib.write_json(w.path("descs.json"), descs)
-        r = w.run_drive(["intro", "-kind", kind, "-in", "descs.json", "-out", "obs.ndjson", "-reps", "2" if tier == "quick" else "5"])
-        log(r.stderr.strip())
-        cfg = write_cfg(w, "T.cfg", "TraceSpec", [inv], constants={"TraceFile": '"obs.ndjson"'})
-        tres = w.tlc(module, cfg, workers=1, timeout=1800)
-        ev.add_tlc("observations-vs-expected", tres, "trace_validation")
-        lines = open(w.path("obs.ndjson")).read().splitlines()
-        rc = 0
-        if tres["violated"]:
-            line, _ = vlib.last_alias_state(tres["out"])
-            obs = json.loads(lines[max(0, (line or 2) - 2)])
-            os.makedirs(vlib.REPLAYS, exist_ok=True)
-            rp = os.path.join(vlib.REPLAYS, "%s-%s.json" % (prop, vlib.sha(json.dumps(obs.get("desc"), sort_keys=True))))
-            vlib.write_json(rp, {"property": prop, "invariant": inv, "spec": module, "observation": obs, "seed": seed})
-            ev.doc["violations"] += 1
-            print("VIOLATION property=%s replay=%s" % (prop, rp), flush=True)
-            rc = 1
-        elif not tres["ok"] or tres["post_false"]:
-            raise Infra("oracle run did not complete:\n" + tres["out"][-2500:])
-        ev.cov["traces_validated_against_impl"] += len(lines)
-        ev.cov["evaluations"] += len(lines)
+        rc, descs, lines = oracle_stage(w, prop, prop, tier, seed, ev)
         ev.cov["distinct_nontrivial"] = len(descs)
         ev.cov["exhaustive"] = True
         ev.cov["rule"] = ("every descriptor of the bounded space defined in %s (enumerated by TLC), each built by reflection and observed through "
